@@ -21,6 +21,11 @@ pub struct CloneCase {
     /// `h`, i.e. usually another position) instead of `clone()`
     #[serde(default)]
     pub into_existing: Option<Vec<Op>>,
+    /// Some(l): the target of `clone_from` is a clone of the source itself advanced by the few
+    /// operations `l` (checkpoint / roll-back within one lineage: same seed, nearly the same
+    /// position, e.g. differing only in a pending half)
+    #[serde(default)]
+    pub lineage: Option<Vec<Op>>,
 }
 
 #[derive(Clone, Debug, Serialize, Deserialize)]
@@ -89,9 +94,17 @@ pub fn check_clone(c: &CloneCase) -> CheckResult {
     let info = c.spec.ty().info();
     let mut g = c.spec.build();
     run(&mut *g, c.pre, &c.hist);
-    let mut cl = match &c.into_existing {
-        None => g.clone_box(),
-        Some(h) => {
+    let mut cl = match (&c.lineage, &c.into_existing) {
+        (Some(l), _) => {
+            let mut t = g.clone_box();
+            for op in l {
+                apply(&mut *t, op);
+            }
+            t.clone_from_dyn(&*g);
+            t
+        }
+        (None, None) => g.clone_box(),
+        (None, Some(h)) => {
             let mut t = c.spec.build();
             run(&mut *t, 0, h);
             t.clone_from_dyn(&*g);
@@ -99,7 +112,7 @@ pub fn check_clone(c: &CloneCase) -> CheckResult {
         }
     };
     if info.eq && cl.eq_dyn(&*g) != Some(true) {
-        return Err(Fail::new(format!("C10:clone-ne:{}", info.name), if c.into_existing.is_some() { "after clone_from() the target does not compare equal to the source" } else { "clone() does not compare equal to the original" }));
+        return Err(Fail::new(format!("C10:clone-ne:{}", info.name), if c.into_existing.is_some() || c.lineage.is_some() { "after clone_from() the target does not compare equal to the source" } else { "clone() does not compare equal to the original" }));
     }
     if let Err((k, va, vb)) = lockstep(&mut *g, &mut *cl, &c.cont) {
         return Err(Fail::new(format!("C10:clone-future:{}", info.name), format!("clone and original return different values at continuation op #{}", k)).exp_act(va, vb));
@@ -112,7 +125,8 @@ pub fn check_clone(c: &CloneCase) -> CheckResult {
         .class(c.spec.class())
         .class_if(c.hist.iter().any(|o| matches!(o, Op::Jump | Op::LongJump)), "hist-has-jump")
         .class_if(c.cont.iter().any(|o| matches!(o, Op::Jump | Op::LongJump)), "cont-has-jump")
-        .class_if(c.into_existing.is_some(), "clone_from")
+        .class_if(c.into_existing.is_some() || c.lineage.is_some(), "clone_from")
+        .class_if(c.lineage.is_some(), "clone_from-within-lineage")
         .class_if(c.hist.last() == Some(&Op::U32), "cloned-after-u32"))
 }
 
@@ -403,8 +417,9 @@ pub fn def(ctx: &Ctx) -> PropDef {
             format!("clone/{}", ty.name()),
             t.pick(4000, 400_000),
             move || {
-                (gens::det_spec(ty, true), gens::pre_advance(&info), gens::ops(&info, hl, 600, true), gens::ops(&info, hl, 600, true), proptest::option::weighted(0.35, gens::ops(&info, 6, 300, true)))
-                    .prop_map(|(spec, pre, hist, cont, into_existing)| CloneCase { spec, pre, hist, cont, into_existing })
+                let lin = proptest::collection::vec(prop_oneof![4 => Just(Op::U32), 2 => Just(Op::U64), 1 => (0usize..=9).prop_map(Op::Fill)], 1..=3);
+                (gens::det_spec(ty, true), gens::pre_advance(&info), gens::ops(&info, hl, 600, true), gens::ops(&info, hl, 600, true), proptest::option::weighted(0.35, gens::ops(&info, 6, 300, true)), proptest::option::weighted(0.2, lin))
+                    .prop_map(|(spec, pre, hist, cont, into_existing, lineage)| CloneCase { spec, pre, hist, cont, into_existing, lineage })
                     .boxed()
             },
             check_clone,
